@@ -8,8 +8,10 @@
      Q k1 k2 ..            keys queried after every batch (hex)
      B k v k v ..          a batch; v = '-' for DefaultLeaf
      O root g1 g2 ..       what the implementation reported after that batch
-     L 0|1                 before the batches: also run the batch-storage model (BatchModel.v);
-                           1 = AtomicUpdate
+     L 0|1 climit          before the batches: also run the batch-storage model (BatchModel.v);
+                           1 = AtomicUpdate; climit = Trie.CacheHeightLimit
+     SR j                  instead of B: the instance is pointed back at the root after batch j
+     K k:v ..              liveCache reported by the implementation, compared with the model's
      U k:v k:v ..          updatedNodes reported by the implementation after that Update
                            (key : serializeBatch, sorted by key), compared byte for byte with the
                            model's [upd]; also compares the batch-level root and abs_batch_store
@@ -61,7 +63,8 @@ let () =
   let nb = ref 0 in
   let diff = ref None in
   let blevel = ref None in      (* Some atomic *)
-  let bst = ref { db = []; upd = [] } in
+  let bst = ref { db = []; upd = []; cache = [] } in
+  let climit = ref (nat_of_int 257) in
   let broot = ref [] in
   let berr = ref false in
   (try
@@ -78,12 +81,29 @@ let () =
           hist := !t :: !hist;
           (match !blevel with
            | Some atomic when not !berr ->
-               (match trie_update_b toy_hash atomic !bst !broot ps with
+               (match trie_update_b toy_hash atomic !climit !bst !broot ps with
                 | Some (st', r) -> bst := st'; broot := r
                 | None -> berr := true;
                     if !diff = None then diff := Some (Printf.sprintf "bdiff %d model-load-error" !nb))
            | _ -> ())
-      | ["L"; a] -> blevel := Some (a = "1")
+      | ["L"; a; cl] -> blevel := Some (a = "1"); climit := nat_of_int (int_of_string cl)
+      | ["SR"; j] ->
+          (* the instance is pointed back at the root after batch j: store and cache stay *)
+          let tj = List.nth (List.rev !hist) (int_of_string j) in
+          t := tj; hist := tj :: !hist;
+          (match !blevel with Some _ -> broot := root toy_hash th256 tj | None -> ())
+      | "K" :: ents ->
+          (match !blevel with
+           | Some _ when not !berr && !diff = None ->
+               let bi = !nb - 1 in
+               let mine = List.sort compare (List.map (fun (k, b) -> hex_of_bytes k ^ ":" ^ hex_of_bytes (serialize_batch b)) !bst.cache) in
+               let theirs = List.sort compare ents in
+               if mine <> theirs then begin
+                 let only l1 l2 = List.filter (fun x -> not (List.mem x l2)) l1 in
+                 diff := Some (Printf.sprintf "bdiff %d liveCache model-only=[%s] impl-only=[%s]" bi
+                                 (String.concat " " (only mine theirs)) (String.concat " " (only theirs mine)))
+               end
+           | _ -> ())
       | "U" :: ents ->
           (* nb was already advanced by the O record of this batch *)
           (match !blevel with
@@ -113,7 +133,7 @@ let () =
       | ["E"] ->
           print_endline (match !diff with None -> "ok" | Some d -> d);
           q := []; t := E; hist := []; nb := 0; diff := None;
-          blevel := None; bst := { db = []; upd = [] }; broot := []; berr := false
+          blevel := None; bst := { db = []; upd = []; cache = [] }; broot := []; berr := false; climit := nat_of_int 257
       | ["R"; tg] ->
           (* Revert to the root after batch <tg>: keys the model deletes (sorted), and the index
              pastTries is cut at (first past root equal to the target) *)
